@@ -250,6 +250,14 @@ func stressChild(seconds int, seed uint64) int {
 						rt.r.ServeHTTP(rs.rec, rs.req)
 						rs.started, rs.finished = true, true
 						rs.ended()
+						if rs.ccwAlien != "" {
+							mu.Lock()
+							mismatches++
+							if mismatches <= 5 {
+								fmt.Printf("MISMATCH: request %s %s %s (router: %s)\n", cfg.reqs[i].method, cfg.reqs[i].path, rs.ccwAlien, strings.Join(g.setupOps(), "; "))
+							}
+							mu.Unlock()
+						}
 						if prev != nil {
 							for _, msg := range prev.keptChanged() {
 								mu.Lock()
